@@ -429,3 +429,24 @@ _RULE_ADDENDA = {
 }
 for _k, _v in _RULE_ADDENDA.items():
     PROPS[_k]["rule"] += _v
+
+# ... and after the sixth round
+_RULE_ADDENDA_6 = {
+    "C01": " Operation changeBetweenReads: a peer reads a list function, the application changes it (SetData, or UpdateData with a filter of any shape), a peer reads again - every reply carries the data held at that moment. In half of the cases the peers announce two client features of one type in one entity.",
+    "C02": " Delete selectors may be present but empty (they select every item).",
+    "C03": " Entity removal: one notification announces one to three entities of a peer as removed (partial entries in any order, mixed with an added entry for a known entity, or a full notification that omits them), writers on every removed entity are probed afterwards; a binding delete request of the holder counts as deletion whatever device parts it omits and however it is answered.",
+    "C04": " Delete selectors may name non-identifier elements, part of the identifier or nothing (several addressed elements); delete elements may name a sub element (value.scale) - P4 does not compare the new content of an element then.",
+    "C05": " Template discovery-read-filtered: a detailed-discovery read with a partial filter carrying entity / feature / device selectors and elements.",
+    "C07": " In a third of the histories a connection without SHIP writer (every send fails) subscribed to node management before everybody else.",
+    "C08": " Failing local updates also come as a filter on a function of the feature's own type that takes no restricted updates. Delete requests of announced peers may name a foreign device in the client address: they address no entry of the sender.",
+    "C09": " Delete requests of announced peers may name a foreign device in the client address: they address no binding of the sender and must fail.",
+    "C11": " Run remoteusecase: use case data a peer reported (DataCopy of its NodeManagement feature, DeviceRemote.UseCases(), event payloads) against later entity removals / additions, further use case replies and notifications, removals by another peer and the disconnect.",
+    "C12": " A drawn subset of the callbacks gives its verdicts from inside the invocation (which lasts until the verdict is due, for a silent callback until the case ends); a third of the writes are filter-less writes of the complete list, most of them repeating the data the feature currently holds; the data at the end must be the initial data with the approved writes applied in some order.",
+    "C16": " Sequential scenario with a time-out of exactly 2 s (the boundary of the shortening rule).",
+    "C17": " Storm restricted-updates-of-many-list-types (runs first): six goroutines apply partial and delete updates to all keyed list functions of all feature types on different local features.",
+    "C18": " A quarter of the reply / notify / write cells are built before the function ever got data.",
+    "C19": " Period texts are also decoded into receivers that held another period before (a used variable, the period member of an item decoded twice); durations and instants also go through GetDurationType / GetDateTimeType.",
+    "C20": " Scenario lists are given in the drawn order or with a scenario named twice in half of the additions.",
+}
+for _k, _v in _RULE_ADDENDA_6.items():
+    PROPS[_k]["rule"] += _v
